@@ -102,6 +102,5 @@ package filesystem
 //gvc:  opt coarse
 //gvc:  opt frame args
 //gvc:  results werr
-//gvc:  requires nn: s != nil && s.dir != nil
-//gvc:  ensures durable: werr == nil && calls("IndexWriter") == 1 && lastres("IndexWriter") == nil ==> calls("Flush") == 1 && lastres("Flush") == nil && calls("Encode") == 1 && lastres("Encode") == nil && f.#closeerr == nil && !f.#open
+//gvc:  ensures durable: werr == nil && calls("IndexWriter") == 1 && lastres("IndexWriter") == nil ==> calls("Flush") == 1 && lastres("Flush") == nil && calls("Encode") == 1 && lastres("Encode") == nil && now(f).#closeerr == nil && !now(f).#open
 //gvc:end
